@@ -8,8 +8,10 @@ git -C $wt checkout -q -- . ; git -C $wt clean -fdq -e target -e Cargo.lock
 git -C $wt apply $out/patch.diff || { echo "CONFIRM $pid/$v: patch does not apply"; exit 1; }
 suite=$(cd $wt && cargo nextest run --workspace --no-fail-fast --offline 2>&1 | grep -E "Summary|error(\[|:)" | head -3)
 rundemo() {
-  if [ -f $out/demo/Cargo.toml ]; then (cd $out/demo && CARGO_TARGET_DIR=$wt/target/demo cargo test --offline 2>&1 | grep -E "^test result|error(\[|:)|could not compile" | head -5)
-  else (cd $out/demo && sh ./run.sh 2>&1 | grep -E "^test result|Summary|PASS|FAIL|error(\[|:)|could not compile" | head -6); fi
+  # the agent's run.sh is the authoritative command (it may build a binary first); a bare
+  # scratch crate is run with cargo test
+  if [ -f $out/demo/run.sh ]; then (cd $out/demo && bash ./run.sh 2>&1 | grep -E "^test result|Summary|PASS|FAIL|error(\[|:)|could not compile" | grep -v "ok. 0 passed" | head -6)
+  else (cd $out/demo && CARGO_TARGET_DIR=$wt/target/demo cargo test --offline 2>&1 | grep -E "^test result|error(\[|:)|could not compile" | grep -v "ok. 0 passed" | head -5); fi
 }
 demo_with=$(rundemo)
 git -C $wt checkout -q -- . ; git -C $wt clean -fdq -e target -e Cargo.lock
